@@ -28,6 +28,7 @@ def kv(line):
 
 def run(ctx):
     ctx.regen(["tokens", "scantok"])
+    sc.gen_notes(ctx)
     ctx.prove("C33")
     R = sc.Runner(ctx)
     rc, dump = ctx.run([R.impl, "tokens"])
